@@ -335,7 +335,7 @@ def plan(tier):
         for t0 in TOPO_TYPES:
             for t1 in TOPO_TYPES:
                 t.append({'kind': 'topo', 'topo': topo, 'first': [t0, t1], 'dev': 0 if tier == 'quick' else 1})
-    fams = [(2, 1, 'A04', 0, 1), (2, 2, 'A04', 1, 1), (3, 2, 'A04S', 1, 0)]
+    fams = [(2, 1, 'A04', 0, 1), (2, 2, 'A04', 1, 1), (3, 2, 'A04S', 1, 0), (2, 3, 'A04S', 2, -2)]  # last: last-gate output, so dead logic next to live logic
     if tier == 'thorough':
         fams = [(2, 1, 'A04', 0, 2), (2, 2, 'A04', 1, 1), (3, 2, 'A04', 1, 1), (2, 3, 'A04S', 2, -1), (3, 3, 'A04S', 2, -2)]
     for n, k, a, split, dev in fams:
@@ -355,7 +355,7 @@ def describe(tier):
         'deviations on the designed shapes. Oracle: reference truth table, interface, non-trivial gate count; exceptions other than '
         'FailedValidationError tolerated only when two gates of the argument are functionally equivalent. distinct = distinct '
         '(gates before, gates after).',
-        'bounds': {'quick': '18 designed shapes (4 bases x 8 parameter sets, 1 deviation for XAIG with direct/pool/validation; the two largest shapes with max_subcircuit_size<=3); F(2,1,A04), F(2,2,A04) 1 deviation; F(3,2,A04S) default environment',
+        'bounds': {'quick': '18 designed shapes (4 bases x 8 parameter sets, 1 deviation for XAIG with direct/pool/validation; the two largest shapes with max_subcircuit_size<=3); F(2,1,A04), F(2,2,A04) 1 deviation; F(3,2,A04S) default environment; F(2,3,A04S) last-gate output (dead gates next to live ones), default environment',
                    'thorough': 'designed shapes 2 deviations; F(2,1) 2 deviations; F(2,2,A04), F(3,2,A04) 1 deviation; F(2,3,A04S) default environment + set-order deviations, F(3,3,A04S) default environment (last-gate output, XAIG)'}[tier],
         'exhaustive': True,
         'assumptions': ['vsat is sound and complete; the cut shim enumerates admissible families (vmc/shims); vmc.refmodel evaluator'],
@@ -415,6 +415,7 @@ def run_task(task, acc):
         return
     alpha = ALPHAS[task['alpha']]
     n, k = task['n'], task['k']
+    outs = (n + k - 1,)
     for gates in space.enum_gates(n, k, alpha, space.prefix_from_task(task)):
         if task['dev'] == -2:
             # largest family: last-gate output, XAIG, direct solver call, default environment
